@@ -238,7 +238,7 @@ struct CEval { const char* sym; const char* fn; const char* sig; double (*call)(
 static bool c_eval(const std::string& fn, const std::string& sig, const ApiArgs& A, double& r) { for (auto& e : C_EVALS) if (fn == e.fn && sig == e.sig) { r = e.call(A); return true; } return false; }
 
 // ------------------------------------------------------------------------------------------------ spaces
-struct Space { std::string id; std::vector<Op> prefix; std::vector<Op> ops; std::vector<std::string> solutions; int max_depth = 1000; };
+struct Space { std::string id; std::vector<Op> prefix; std::vector<Op> ops; std::vector<std::string> solutions; int max_depth = 1000; bool key_last = false; };
 static Op mk(OpT t, int reg, bool c = false) { Op o; o.t = t; o.reg = reg; o.c = c; return o; }
 static Op opInit(int reg, const std::string& h, const std::string& s, bool c = false) { Op o = mk(INIT, reg, c); o.h = h; o.s = s; return o; }
 static Op opSel(int reg, const std::string& h, bool c = false) { Op o = mk(SELECT, reg, c); o.h = h; return o; }
@@ -290,11 +290,26 @@ static void load_catalogue() {
   std::istringstream is(s); std::string l; bool in = false; while (std::getline(is, l)) { if (l.find("*---") != std::string::npos) { if (in) break; in = true; continue; } if (in && !l.empty()) CATALOGUE.insert(l); }
 }
 
+// observation taken in a forked copy, so that the probing calls of the observer (select, set, get ...) leave no trace in the
+// process whose history is being replayed: hidden library state that depends on the sequence of API calls stays exactly
+// what the history made it
+static std::string observe_in_fork(const Model& M) {
+  int pfd[2]; if (pipe(pfd)) exit(2); pid_t pid = fork();
+  if (pid == 0) { close(pfd[0]); g_cap = g_out + ".cap.obs" + std::to_string(getpid()); std::string o = observe_real(M); ssize_t w = write(pfd[1], o.data(), o.size()); (void)w; unlink(g_cap.c_str()); _exit(0); }
+  close(pfd[1]); std::string s; char b[65536]; ssize_t n; while ((n = read(pfd[0], b, sizeof b)) > 0) s.append(b, n); close(pfd[0]); int st; waitpid(pid, &st, 0);
+  if (!WIFEXITED(st) || WEXITSTATUS(st) != 0) return "OBSERVER-DIED:" + std::to_string(st);
+  return s;
+}
+static bool g_key_last = false;  // state identity = observation (+ the last operation, as a proxy for hidden call-order state)
+static std::string state_key(const std::string& obs, const Op* last) { return hash128(g_key_last && last ? obs + "|last=" + last->str() : obs); }
+// replay step: the operation on library and model only, no observation
+static void pure_apply(const Op& o, Model& M) { std::string note; Model M2 = M; Outcome e = model_op(o, M2, note); Outcome g = real_op(o); if (!e.fatal && !g.fatal) M = M2; }
+
 // executes `o` in the current process on real library and model; fills violation text; returns successor key hash ("" if fatal)
 static std::string step(const Op& o, Model& M, std::string& viol, bool& fatal, std::string& evalrec) {
   std::string before_real;
 #ifdef MASA_EXCEPTIONS
-  before_real = observe_real(M);
+  before_real = observe_in_fork(M);
 #endif
   Model M2 = M; std::string note; Outcome exp = model_op(o, M2, note);
   Outcome got = real_op(o);  // in the exit() build a fatal error terminates this process here (observed by the caller through the wait status)
@@ -304,7 +319,7 @@ static std::string step(const Op& o, Model& M, std::string& viol, bool& fatal, s
     if (got.code != 1 || got.out.find("MASA FATAL ERROR") == std::string::npos) viol = "op " + o.str() + ": fatal error with code " + std::to_string(got.code) + " / no 'MASA FATAL ERROR' line on stdout";
     std::string after = observe_real(M);
     if (after != before_real && viol.empty()) viol = "op " + o.str() + ": state changed by a failed call; before=" + before_real.substr(0, 300) + " after=" + after.substr(0, 300);
-    return hash128(after);
+    return state_key(after, 0);
   }
   M = M2;
   if (exp.ret != "*" && exp.ret != got.ret && !(exp.ret.size() && exp.ret.back() == '*' && got.ret.compare(0, exp.ret.size() - 1, exp.ret, 0, exp.ret.size() - 1) == 0)) viol = "op " + o.str() + ": returned '" + got.ret.substr(0, 160) + "', model expects '" + exp.ret.substr(0, 160) + "'";
@@ -316,7 +331,7 @@ static std::string step(const Op& o, Model& M, std::string& viol, bool& fatal, s
     size_t a = k > 60 ? k - 60 : 0;
     viol = "after " + o.str() + ": observation differs from the reference model at offset " + std::to_string(k) + ": lib ..." + real.substr(a, 160) + "... model ..." + model.substr(a, 160) + "...";
   }
-  return hash128(real);
+  return state_key(real, &o);
 }
 
 struct StateInfo { std::vector<int> hist; std::string hash; };
@@ -327,7 +342,7 @@ int main(int argc, char** argv) {
     if (a == "--space") space_id = nx(); else if (a == "--out") g_out = nx(); else if (a == "--jobs") jobs = atoi(nx().c_str()); else if (a == "--solution") g_solution = nx();
     else if (a == "--tier") g_tier = nx() == "thorough"; else if (a == "--evals") { std::istringstream es(nx()); std::string t; while (std::getline(es, t, ',')) if (!t.empty()) g_evals.push_back(t); } else if (a == "--deadline") deadline = atof(nx().c_str()); else if (a == "--replay") replay = nx(); }
   g_cap = g_out + ".cap." + std::to_string(getpid());
-  Space SP = make_space(space_id);
+  Space SP = make_space(space_id); g_key_last = SP.key_last;
   load_catalogue();
   for (auto& s : SP.solutions) defaults_for(s);
   double t_end = now() + deadline;
@@ -344,7 +359,7 @@ int main(int argc, char** argv) {
   // initial state: the prefix applied in a child to obtain its hash
   {
     int pfd[2]; if (pipe(pfd)) return 2; pid_t pid = fork();
-    if (pid == 0) { close(pfd[0]); g_cap = g_out + ".cap.init"; Model M; std::string v; for (auto& o : SP.prefix) { bool f; std::string ev, vv; step(o, M, vv, f, ev); if (!vv.empty()) v = vv; } std::string h = hash128(observe_real(M)) + "\t" + esc(v); ssize_t w = write(pfd[1], h.data(), h.size()); (void)w; unlink(g_cap.c_str()); _exit(0); }
+    if (pid == 0) { close(pfd[0]); g_cap = g_out + ".cap.init"; Model M; std::string v; for (auto& o : SP.prefix) { bool f; std::string ev, vv; step(o, M, vv, f, ev); if (!vv.empty()) v = vv; } std::string h = state_key(observe_real(M), SP.prefix.empty() ? 0 : &SP.prefix.back()) + "\t" + esc(v); ssize_t w = write(pfd[1], h.data(), h.size()); (void)w; unlink(g_cap.c_str()); _exit(0); }
     close(pfd[1]); std::string s; char b[8192]; ssize_t n; while ((n = read(pfd[0], b, sizeof b)) > 0) s.append(b, n); close(pfd[0]); int st; waitpid(pid, &st, 0);
     if (!WIFEXITED(st) || WEXITSTATUS(st) != 0 || s.size() < 32) { fprintf(g_log, "V\t-1\t-1\tprefix of space %s terminated the process (status %d)\n", space_id.c_str(), st); fclose(g_log); return 0; }
     std::string h = s.substr(0, 32); std::string v = s.size() > 33 ? s.substr(33) : ""; if (!v.empty()) fprintf(g_log, "V\t-1\t-1\t%s\n", v.c_str());
@@ -366,9 +381,10 @@ int main(int argc, char** argv) {
             alarm(g_op_timeout * 4);
             g_cap = g_out + ".cap." + std::to_string(getpid());
             Model M; std::string v; bool f; std::string ev;
-            for (auto& o : SP.prefix) step(o, M, v, f, ev);
-            for (int k : states[si].hist) { std::string vv; step(SP.ops[k], M, vv, f, ev); }
-            std::string h = hash128(observe_real(M));
+            for (auto& o : SP.prefix) pure_apply(o, M);
+            for (int k : states[si].hist) pure_apply(SP.ops[k], M);
+            const Op* lastop = states[si].hist.empty() ? (SP.prefix.empty() ? 0 : &SP.prefix.back()) : &SP.ops[states[si].hist.back()];
+            std::string h = state_key(observe_in_fork(M), lastop);
             alarm(0);
             if (h != states[si].hash) { fprintf(fo, "H\t%zu\treplay of the shortest history does not reproduce the recorded observation\n", si); fflush(fo); unlink(g_cap.c_str()); _exit(3); }
             for (size_t k = 0; k < SP.ops.size(); k++) {
@@ -380,6 +396,7 @@ int main(int argc, char** argv) {
                 // a fatal error in the exit() build ends this process inside step(): announce the attempt first
                 std::string viol, evalrec; bool fatal = false; Model M2 = M;
                 std::string hs = step(SP.ops[k], M2, viol, fatal, evalrec);
+                if (fatal) hs = states[si].hash;  // a failed call is a self loop (its observation was compared with the one before the call inside step)
                 std::string msg = hs + "\t" + (fatal ? "1" : "0") + "\t" + esc(viol) + "\t" + esc(evalrec);
                 ssize_t wr = write(pfd[1], msg.data(), msg.size()); (void)wr; close(pfd[1]); unlink(g_cap.c_str());
 #ifdef E2_NORMAL_EXIT
@@ -449,6 +466,7 @@ static Space make_space(const std::string& id) {
       S.ops.push_back(opEval(r, "source_rho_u", "S", 0));
       if (full) { S.ops.push_back(opEval(r, "source_t", "SS", 0)); S.ops.push_back(mk(GETNAME, r)); S.ops.push_back(mk(GETDIM, r)); S.ops.push_back(mk(LIST, r)); }
     }
+    S.key_last = (id == "c12" || g_tier);  // registry code is where call-order state would live: keep states apart by their last operation (C16 quick: plain observation)
     if (id == "c16" || id == "c12x") {  // misuse operations from every state
       for (int r = 0; r < 2; r++) { S.ops.push_back(opSel(r, "nosuch")); S.ops.push_back(opInit(r, "c", "no_such_solution")); S.ops.push_back(opInit(r, "a", "euler_1dd")); }
     }
